@@ -309,9 +309,9 @@ def proof_part(rep, prop, thorough_checker=False):
 # ---------------------------------------------------------------- T1 corpus runs
 
 
-def corpus_dir(tier, seed, plugins):
+def corpus_dir(tier, seed, plugins, gen="gencorpus"):
     d, _ = build_goderive()
-    return os.path.join(d, "corpus-%s-%d-%s" % (tier, seed, hashlib.sha1(",".join(plugins).encode()).hexdigest()[:8]))
+    return os.path.join(d, "%s-%s-%d-%s" % (gen, tier, seed, hashlib.sha1(",".join(plugins).encode()).hexdigest()[:8]))
 
 
 def run_goderive(binp, cwd, args, timeout=120, mem_gb=4):
@@ -325,12 +325,14 @@ def run_goderive(binp, cwd, args, timeout=120, mem_gb=4):
         return -1, "timeout", True
 
 
-def prepare_corpus(tier, seed, plugins):
-    """Generates the corpus for (tier, seed, plugins), runs the real goderive from /repo on it, compiles
-    the reflection driver, runs impl and model on all ops. Cached per repo hash. Returns a dict."""
+def prepare_corpus(tier, seed, plugins, gen="gencorpus", build_tags=None):
+    """Generates the corpus for (tier, seed, plugins) with harness command `gen`, runs the real goderive
+    from /repo on the packages it lists (pkgs.txt, default: the q<N> directories; extra goderive flags in
+    goderive_args.txt), compiles the driver program, runs impl and model on all ops.
+    Cached per repo hash. Returns a dict."""
     tools = build_tools()
     d, binp = build_goderive()
-    cdir = corpus_dir(tier, seed, plugins)
+    cdir = corpus_dir(tier, seed, plugins, gen)
     tag = hash_tree(LEAN, ["GoderiveModel", "Driver"]) + tools[-8:]
     with Lock("corpus-" + os.path.basename(cdir)):
         info_path = os.path.join(cdir, "info.json")
@@ -340,19 +342,25 @@ def prepare_corpus(tier, seed, plugins):
                 return info
         shutil.rmtree(cdir, ignore_errors=True)
         os.makedirs(cdir)
-        args = [os.path.join(tools, "gencorpus"), "-out", cdir, "-seed", str(seed), "-harness", HARNESS,
+        args = [os.path.join(tools, gen), "-out", cdir, "-seed", str(seed), "-harness", HARNESS,
                 "-plugins", ",".join(plugins)]
         if tier == "thorough":
             args.append("-thorough")
         sh(args, check=True, timeout=600)
-        pkgs = sorted(x for x in os.listdir(cdir) if re.fullmatch(r"q\d+", x))
+        if os.path.exists(os.path.join(cdir, "pkgs.txt")):
+            pkgs = open(os.path.join(cdir, "pkgs.txt")).read().split()
+        else:
+            pkgs = sorted(x for x in os.listdir(cdir) if re.fullmatch(r"q\d+", x))
+        gargs = []
+        if os.path.exists(os.path.join(cdir, "goderive_args.txt")):
+            gargs = open(os.path.join(cdir, "goderive_args.txt")).read().split()
         info = {"dir": cdir, "tag": tag, "pkgs": pkgs, "stats": json.load(open(os.path.join(cdir, "stats.json")))}
         t = time.time()
-        rc, err, to = run_goderive(binp, cdir, ["./" + p for p in pkgs], timeout=600, mem_gb=8)
+        rc, err, to = run_goderive(binp, cdir, gargs + ["./" + p for p in pkgs], timeout=600, mem_gb=8)
         info["goderive_rc"], info["goderive_err"], info["goderive_timeout"] = rc, err[-3000:], to
         info["goderive_s"] = round(time.time() - t, 2)
         if rc == 0:
-            p = sh(["go", "build", "-o", "corpus.bin", "."], cwd=cdir, timeout=1800)
+            p = sh(["go", "build"] + (["-tags", build_tags] if build_tags else []) + ["-o", "corpus.bin", "."], cwd=cdir, timeout=1800)
             info["build_rc"], info["build_err"] = p.returncode, p.stderr[-3000:]
             if p.returncode == 0:
                 with open(os.path.join(cdir, "ops.txt")) as fin, open(os.path.join(cdir, "impl.txt"), "w") as fout:
